@@ -255,6 +255,22 @@ def norm_index(i, n):
     return idx, z3.Or(idx < 0, idx >= n)
 
 
+_REF_AT = None
+
+
+def nth(z, i, elem):
+    """element i of a list term.  Lists of object references are indexed through an uninterpreted function:
+    every fact about their elements (append, remove, membership, table invariants) is stated with indexes and
+    quantifiers, which z3 instantiates reliably over an uninterpreted function but not over seq.nth; their
+    length stays seq.len.  All other sequences use seq.nth."""
+    global _REF_AT
+    if elem is not None and getattr(elem, 'kind', None) == 'ref':
+        if _REF_AT is None:
+            _REF_AT = z3.Function('ref_at', z3.SeqSort(z3.IntSort()), z3.IntSort(), z3.IntSort())
+        return _REF_AT(z, i if z3.is_expr(i) else z3.IntVal(i))
+    return z[i]
+
+
 def index(seq, i):
     if isinstance(seq, VFrozenSet):
         return VNone, [(TRUE, 'TypeError')]
@@ -270,7 +286,7 @@ def index(seq, i):
             return VNone, [(TRUE, 'IndexError')]
         n = z3.Length(seq.z)
         idx, oor = norm_index(as_int(i).z, n)
-        el = seq.z[idx]
+        el = nth(seq.z, idx, seq.elem) if isinstance(seq, VList) else seq.z[idx]
         if isinstance(seq, VBytes):
             return VInt(el, bits=8), [(oor, 'IndexError'), ('fact', z3.And(0 <= el, el < 256))]
         return from_z3(el, seq.elem), [(oor, 'IndexError')]
